@@ -183,7 +183,7 @@ impl SlowRequestLogger {
         let dt = log.event_map.get_used_time(TaskEvent::WaitDone);
         let threshold = self.config.get_slowlog_log_slower_than();
         // ms to ns
-        if dt > threshold * 1000 {
+        if dt > threshold.saturating_mul(1000) {
             self.add(request, log);
         }
     }
